@@ -82,6 +82,25 @@ extern "C" void h_sym()
   OBL(s.scope_start() == 0, "C11.scope: a second scope opens");
   OBL(s.append(n1, a2) == 0 && s.lookup(n1, &v) == 0 && v == a2, "C11.scope: the same local name can be defined in another scope and resolves there");
   s.scope_end();
+#elif SCN == 6
+  /* long names: the record length is kept in one byte (Entry::len).  A name of NAMELEN characters is either rejected, or
+     stored with its true record length - so that the walk over the pool stays in step and later symbols stay visible. */
+  static char longname[NAMELEN + 1];
+  for (int i = 0; i < NAMELEN; i++) longname[i] = 'a';
+  longname[NAMELEN] = 0;
+  int r1 = s.append(longname, a1);
+  if (r1 == 0)
+  {
+    /* the record just written is the first one of the first pool */
+    MemoryPool *mp = s.memory_pool;
+    Symbols::Entry *e = (Symbols::Entry *)(void *)&mp->buffer[0];
+    OBL((int)e->len == NAMELEN + 1, "C11.sym: an accepted name is stored with its true record length (the one-byte length field does not wrap)");
+    OBL(mp->ptr == (int)sizeof(Symbols::Entry) + (int)e->len, "C11.sym: the next record starts where the stored length says (the walk over the pool stays in step, later symbols stay visible)");
+  }
+  else
+  {
+    OBL(NAMELEN + 1 > 255, "C11.sym: only names whose record does not fit the length field are rejected");
+  }
 #elif SCN == 3
   ASSUME(n1[1] == 0);
   OBL(s.set(n1, a1) == 0, "C11.set: .set defines a new read-write symbol");
